@@ -299,7 +299,7 @@ package meta
 //@ spec func litBytes(out []byte, r *syntax.Regexp) bool = ((forall k :: 0 <= k && k < len(r.Rune) ==> r.Rune[k] < 128) ==> len(out) == len(r.Rune) && (forall k :: 0 <= k && k < len(r.Rune) ==> out[k] == r.Rune[k])) && (len(r.Rune) == 1 ==> len(out) == u8w(r.Rune[0]) && (forall j :: 0 <= j && j < len(out) ==> out[j] == u8b(r.Rune[0], j)))
 //@ spec func astOK(re *syntax.Regexp) bool = re != nil && len(re.Sub) <= 1000000 && (forall k :: 0 <= k && k < len(re.Sub) ==> runesOK(re.Sub[k]) && len(re.Sub[k].Sub) <= 1000000 && (forall m :: 0 <= m && m < len(re.Sub[k].Sub) ==> runesOK(re.Sub[k].Sub[m])))
 //@ opaque spec func alShape(re *syntax.Regexp, w int, info *AnchoredLiteralInfo) bool = (forall i :: 1 <= i && i < w ==> isLit(re.Sub[i])) && info.WildcardMin == ite(re.Sub[w].Op == 15, 1, 0) && (info.WildcardNotNL <==> re.Sub[w].Sub[0].Op == 5) && ((w == len(re.Sub) - 3 && info.CharClassTable == nil) || (w == len(re.Sub) - 4 && isBytePlus(re.Sub[w+1]) && info.CharClassTable != nil && tableOf(*info.CharClassTable, re.Sub[w+1].Sub[0]))) && (w == 1 ==> len(info.Prefix) == 0) && (w == 2 ==> litBytes(info.Prefix, re.Sub[1]))
-//@ spec func alEnds2(re *syntax.Regexp, info *AnchoredLiteralInfo) bool = re.Op == 18 && len(re.Sub) >= 4 && (re.Sub[0].Op == 9 || re.Sub[0].Op == 7) && (re.Sub[len(re.Sub)-1].Op == 10 || re.Sub[len(re.Sub)-1].Op == 8) && isLit(re.Sub[len(re.Sub)-2]) && litBytes(info.Suffix, re.Sub[len(re.Sub)-2])
+//@ opaque spec func alEnds2(re *syntax.Regexp, info *AnchoredLiteralInfo) bool = re.Op == 18 && len(re.Sub) >= 4 && (re.Sub[0].Op == 9 || re.Sub[0].Op == 7) && (re.Sub[len(re.Sub)-1].Op == 10 || re.Sub[len(re.Sub)-1].Op == 8) && isLit(re.Sub[len(re.Sub)-2]) && litBytes(info.Suffix, re.Sub[len(re.Sub)-2])
 //@ spec func alAllShape(re *syntax.Regexp, info *AnchoredLiteralInfo) bool = forall w :: 1 <= w && w < len(re.Sub) - 2 && isWild(re.Sub[w]) ==> alShape(re, w, info)
 //@ func DetectAnchoredLiteral
 //@   props C19 C01 C02
